@@ -3,6 +3,8 @@ from . import serial, bytesacct
 
 
 def run(ctx):
+    from . import c08 as _c08b
+    _c08b.rule_final_snapshot_order(ctx)     # R08.10: the snapshot written at the end of integrate() stores the step size the live simulation continues with
     from . import pyrules
     pyrules.rule_selector_truthiness(ctx, 'R06.11', ('Simulation', 'Simulationarchive'))   # snapshot 0 is restored as snapshot 0
     from . import pyrules
